@@ -316,6 +316,18 @@ def main(argv=None):
             rc = 1
         else:
             print("native: %s" % native_note)
+    # thorough tier: an open finding that is replayed natively must still reproduce (otherwise the entry is stale: exit 2)
+    if a.tier == "thorough" and not a.units and open_native and knowns and prop in native.FAMILIES:
+        try:
+            k0, f0, r0 = knowns[0]
+            extra = native.search_counterexample(prop, f0, r0, REPO, VERIF, BUILD)
+        except Exception as e:
+            extra = dict(counterexample=None, counterexample_search="native family could not run: %s" % e)
+        if extra.get("counterexample"):
+            print("native: known finding reproduced: %s" % (extra["counterexample"].get("failure", "")[:160]))
+            native_note = "known finding reproduced natively: " + (extra.get("counterexample_search") or "")
+        else:
+            undecided.append("known finding of %s did not reproduce natively (stale entry?): %s" % (prop, extra.get("counterexample_search")))
     if undecided and rc == 0:
         for u in undecided:
             print("UNDECIDED: %s" % u)
@@ -323,10 +335,14 @@ def main(argv=None):
     elif undecided:
         for u in undecided:
             print("UNDECIDED: %s" % u)
+    EXTRA_COVERAGE["native_replay"] = native_note or "not run in this tier (the scenario family runs when an obligation fails, when a unit is undecided, and always in the thorough tier)"
     write_evidence(prop, a.tier, seed, results, obligations, discharged, violations, knowns, undecided, time.time() - t0, units)
     print("%s: %d units, %d obligations, %d discharged, %d known findings, %d violations, %d undecided, %.1fs" % (
         prop, len(results), obligations, discharged, len(knowns), len(violations), len(undecided), time.time() - t0))
     return rc
+
+
+EXTRA_COVERAGE = {}
 
 
 def write_evidence(prop, tier, seed, results, obligations, discharged, violations, knowns, undecided, wall, units):
@@ -380,6 +396,7 @@ def write_evidence(prop, tier, seed, results, obligations, discharged, violation
         distinct_nontrivial=max(2, len(set(s.get("obligation") for s in samples if isinstance(s, dict) and s.get("obligation")))),
         rule="one case per labelled contract clause (distinct label) plus one implicit-safety bundle (overflow, bounds, callee preconditions, termination) per function under contract",
     )
+    cov.update(EXTRA_COVERAGE)
     ev = dict(property_id=prop, tier=tier if tier in ("quick", "thorough") else "quick", seed=seed, level=level, coverage=cov,
               assumptions=assumptions, wall_s=round(wall, 2), violations=len(violations))
     json.dump(ev, open(os.path.join(evdir, prop + ".json"), "w"), indent=1)
